@@ -151,15 +151,17 @@ partial def loop (h : IO.FS.Stream) (out : IO.FS.Stream) (s : State) : IO Unit :
   let l := line.trimAscii.toString
   if l == "reset" then
     out.putStrLn "reset"
+    out.flush
     loop h out State.init
   else if l.isEmpty || l.startsWith "#" then
     loop h out s
   else
     match parseOp l with
-    | none => out.putStrLn "unparsed"; loop h out s
+    | none => out.putStrLn "unparsed"; out.flush; loop h out s
     | some op =>
       let (s', o) := step s op
       out.putStrLn (obsLine s s' o)
+      out.flush
       loop h out s'
 
 def main : IO Unit := do
